@@ -37,6 +37,14 @@ CHECKS = {
   design_ref="DESIGN.md section 6",
   note="Trusted: the harness' canonical comparison and deep-copy (CopyNew) of inputs. Scratch is found by field name (buff*/buf*/tmp*/pool*) and type; poisoned byte counts are reported. Operations documented as in place or as no-op (DropLevel, MatchScalesAndLevel, Rescale in scale-invariant mode) are modelled as documented. rgsw, lintrans and polynomial evaluators are not in the catalog yet.",
 ),
+"C10": dict(
+  engine="simsched",
+  technique="deterministic simulation of caller goroutines: real goroutines released one library operation at a time by a seeded scheduler whose hand-offs are hidden from the race runtime, so ThreadSanitizer's vector clocks report any conflicting access of two tasks in every schedule; sequential reference results; copy-vs-original differential and deep-copy independence in a second, race-free binary; minimised choice-trace replay",
+  category="exploration",
+  text="Two phases. Plain binary: per run a scenario of the copy catalog (integer/approximate evaluators, encoders incl. non-default precision and small plaintext ring, encryptor/decryptor, rlwe evaluator with Galois keys added after construction, ring level views + basis extenders, key-generation / key-switch / refresh protocols, rgsw) builds a fully configured original, derives copies through drawn chains of ShallowCopy / WithKey(same) / copy-of-copy, runs a drawn program on all of them in a drawn interleaving: same results and status on the copy as on the original, randomised operations valid and different, a pristine original afterwards behaves like the used one; one run in four checks CopyNew of drawn serializable objects (complete, no shared backing arrays, scrambling the copy leaves the original intact). Race binary: 2-8 tasks, each owning its own copy (or the original) and sharing keys, parameters and inputs, run under the seeded scheduler; a data race is reported by the race runtime whatever the schedule, and after the join every deterministic result must equal the sequential reference, randomised results must be valid and pairwise different.",
+  design_ref="DESIGN.md section 5",
+  note="Trusted: Go race runtime; the argument that for synchronisation-free library code a vector-clock conflict is a race in every interleaving. Bootstrapping evaluator copies, lintrans/polynomial/dft/mod1 evaluators and blind-rotation evaluators are not in the catalog yet. Sampler WithPRNG/AtLevel semantics are decided under C17.",
+),
 "C14": dict(
   engine="simnet",
   technique="deterministic discrete-event network simulation of N parties and a tree of aggregators running several collective key-generation instances concurrently: seeded delay/reordering, duplication, in-transit serialization, aliasing forms of aggregation, mis-routed shares; ideal-secret oracles computed with the simulator's knowledge of all secrets; minimised choice-trace replay",
@@ -103,6 +111,7 @@ def main():
             {"name": "core", "path": "sim/core", "serves_properties": sorted(CHECKS), "kind_free_text": "seeded chooser (single source of choices), deterministic crypto/rand replacement, worker processes with fatal-error attribution, delta-debugging shrinker on the choice trace, replay files, determinism audit, evidence writer"},
             {"name": "simio", "path": "sim/simio", "serves_properties": ["C08"], "kind_free_text": "simulated byte stream: fragmenting/ending/failing reader, failing sink"},
             {"name": "simnet", "path": "sim/simnet", "serves_properties": [p for p in ["C14", "C15", "C16"] if p in CHECKS], "kind_free_text": "discrete-event network simulator: virtual clock, event heap ordered by (time, seq), transport with seeded delay/reordering/duplication, party crash, bounded event budget"},
+            {"name": "simsched", "path": "sim/simsched", "serves_properties": [p for p in ["C10"] if p in CHECKS], "kind_free_text": "cooperative goroutine scheduler: one runnable task, next task drawn from the chooser, hand-offs hidden from the race runtime (runtime.RaceDisable), visible join"},
             {"name": "histsim", "path": "sim/props (c17.go, c09.go)", "serves_properties": [p for p in ["C09", "C17"] if p in CHECKS], "kind_free_text": "history simulator: seeded call histories on long-lived objects with twin execution, scratch poisoning and reset/replay"},
         ],
         "checks": checks,
